@@ -92,3 +92,52 @@ Fixpoint take_bytes (n : N) (s : str) : str :=
   | c :: s' => if n =? 0 then [] else c :: take_bytes (n - utf8_width c) s'
   end.
 Definition slice_bytes (s : str) (offset width : N) : str := take_bytes width (skip_bytes offset s).
+
+(* ---- specification vocabulary for the theorems (definitions only) ---- *)
+(* the greens the parser can build: tokens, new_green over built children, missing() over built
+   children of total width 0 *)
+Inductive built : green -> Prop :=
+  | built_token k t : built (GToken k t)
+  | built_node k cs : Forall built cs -> built (gnode k cs)
+  | built_missing k cs : Forall built cs -> sum_widths cs = 0 -> built (gmissing k cs).
+
+(* the text under a red node *)
+Fixpoint red_text (r : red) : str :=
+  match r with
+  | RT _ t _ _ => t
+  | RN _ cs _ _ =>
+      (fix go (cs : list red) : str :=
+         match cs with [] => [] | c :: cs' => red_text c ++ go cs' end) cs
+  end.
+
+(* P holds at a node and at all its descendants *)
+Fixpoint red_all (P : red -> Prop) (r : red) : Prop :=
+  P r /\
+  match r with
+  | RT _ _ _ _ => True
+  | RN _ cs _ _ =>
+      (fix go (cs : list red) : Prop :=
+         match cs with [] => True | c :: cs' => red_all P c /\ go cs' end) cs
+  end.
+
+(* consecutive spans from [from] that end exactly at [to] *)
+Fixpoint tiles (from to : N) (cs : list red) : Prop :=
+  match cs with
+  | [] => from = to
+  | c :: cs' => red_offset c = from /\ tiles (from + red_width c) to cs'
+  end.
+(* a node's span is the concatenation of its children's spans *)
+Definition children_tile (n : red) : Prop :=
+  match n with
+  | RT _ _ _ _ => True
+  | RN _ cs o w => tiles o (o + w) cs
+  end.
+
+(* node [n] of a tree over [file]: its text sits in the file right after [before], its offset is
+   the byte length of [before], its width the byte length of its text *)
+Definition node_in_file (file : str) (n : red) : Prop :=
+  (exists before after, file = before ++ red_text n ++ after /\ red_offset n = str_width before)
+  /\ red_width n = str_width (red_text n)
+  /\ red_text n = slice_bytes file (red_offset n) (red_width n)
+  /\ children_tile n.
+
